@@ -4,6 +4,7 @@ mod util;
 mod c02;
 mod c03;
 mod c05;
+mod c07;
 mod c09;
 mod c10;
 mod c12;
@@ -27,6 +28,8 @@ fn main() {
         ("c03", "run") => c03::run(),
         ("c05", "gen") => c05::gen(seed, thorough),
         ("c05", "run") => c05::run(),
+        ("c07", "gen") => c07::gen(seed, thorough),
+        ("c07", "run") => c07::run(),
         ("c09", "gen") => c09::gen(seed, thorough),
         ("c09", "run") => c09::run(),
         ("c10", "gen") => c10::gen(seed, thorough, false),
